@@ -191,25 +191,29 @@ theorem get_all_in_memory (P : Nat) (a : AState) (s : Sess) (r : R P a s) (hf : 
     yields the specification's observation and a related state again (anchor bookkeeping included). -/
 theorem step_simulates (P : Nat) (op : Op) : SimStep P op := sim_all P op
 
-/-- **FULL STATEMENT, true of the repaired code** (fix C05-stable-anchor-keep-oldmem; `pinned b` = the working tree has the repair
-    — regenerated constant `BufConsts.stableRetire` — and `bf->stable` is set): while a stable anchor is in force NO
-    `buffer_refill` moves or frees a byte that was handed out — for every window, every `nmin`, however little room is left:
-    the bytes loaded before are still there at the same place (`b.mem` is a prefix of the new window, `base` unchanged), the
-    flag stays set, `memgen` (bumped by every memmove/realloc/free of handed-out bytes) is unchanged. -/
-theorem stable_ptr_valid (b : Buf) (nmin : Nat) (hpin : pinned b = true) :
+/-- the model IS the repaired code (fix 188d0b6): `pinned b` is the C field `bf->stable` -/
+theorem stable_repair_in_model : BufConsts.stableRetire = true ∧ ∀ b : Buf, pinned b = b.stab :=
+  ⟨by decide, fun b => by unfold pinned; rw [show BufConsts.stableRetire = true by decide]; exact Bool.true_and _⟩
+
+/-- **FULL STATEMENT** (true since fix 188d0b6; it was false of the code before, see `stable_ptr_valid_fails_at`): while a stable
+    anchor is in force (`bf->stable` set) NO `buffer_refill` moves or frees a byte that was handed out — for every window,
+    every `nmin`, however little room is left, no other hypothesis: the bytes loaded before are still there at the same place
+    (`b.mem` is a prefix of the new window, `base` unchanged), the flag stays set, and `memgen` (bumped by every
+    memmove/realloc/free of handed-out bytes) is unchanged. -/
+theorem stable_ptr_valid (b : Buf) (nmin : Nat) (hs : b.stab = true) :
     (refill b nmin).2.memgen = b.memgen ∧ (refill b nmin).2.stab = b.stab ∧ (refill b nmin).2.base = b.base ∧
       b.mem <+: (refill b nmin).2.mem :=
-  refill_pinned b nmin hpin
+  refill_pinned b nmin (by rw [stable_repair_in_model.2]; exact hs)
 
 /-- the price of the repair is bounded: under a stable anchor the allocation at least doubles when it grows (so the retired
     blocks, each at most half of its successor, sum to less than the live block) and never exceeds twice the need -/
-theorem stable_growth_bounded (b : Buf) (hpin : pinned b = true) :
+theorem stable_growth_bounded (b : Buf) (hs : b.stab = true) :
     (grow b).balloc ≤ max b.balloc (2 * (b.n + b.pagesize)) ∧ b.n + b.pagesize ≤ max b.balloc (grow b).balloc ∧
       (b.balloc < (grow b).balloc → 2 * b.balloc ≤ (grow b).balloc) :=
-  grow_pinned_bound b hpin
+  grow_pinned_bound b (by rw [stable_repair_in_model.2]; exact hs)
 
--- non-vacuity: a pinned state that has to grow (2-byte window of a 4-byte stream, page 2, no room), on a tree with the repair
-example : BufConsts.stableRetire = true → pinned stableWitness = true ∧ stableWitness.n + stableWitness.pagesize > stableWitness.balloc := by decide
+-- non-vacuity: a state under a stable anchor that has to grow (2-byte window of a 4-byte stream, page 2, no room behind it)
+example : stableWitness.stab = true ∧ stableWitness.n + stableWitness.pagesize > stableWitness.balloc := by decide
 
 /-- **One operation under a stable anchor.** From any state in which an anchor is set, `bf->stable` is set (repaired tree) and
     the memory generation is `g` (`I true g b`; no well-formedness or contract hypothesis), every one of the 14 operations
@@ -231,23 +235,23 @@ theorem stable_ptr_valid_history (g : Nat) (ops : List Op) (s : Sess) (h : I tru
   ⟨r.2.1, r.2.2, r.1⟩
 
 /-- the hypothesis of `stable_ptr_valid_history` is what a successful `SetStableAnchor` on a stream leaves (repaired tree) -/
-theorem stable_anchor_establishes (b : Buf) (o : Nat) (hr : BufConsts.stableRetire = true) (hf : b.hasfp = true)
+theorem stable_anchor_establishes (b : Buf) (o : Nat) (hf : b.hasfp = true)
     (hok : (setStableAnchor b o).1 = .ok) : I true (setStableAnchor b o).2.memgen (setStableAnchor b o).2 :=
-  setStableAnchor_I b o hr hf hok
+  setStableAnchor_I b o stable_repair_in_model.1 hf hok
 
 -- non-vacuity: stream "ab\ncd\nef\n", page 2, stable anchor at 0, then Get, GetLine, GetLine, GetToken (the window has to grow
 -- three times): the hypotheses hold, and so does the conclusion by evaluation
-example : BufConsts.stableRetire = true →
-    Anchored { b := (setStableAnchor (openBuf .stream 2 [97, 98, 10, 99, 100, 10, 101, 102, 10]) 0).2 } [.get, .getLine, .getLine, .getToken [32]] := by
-  intro _; refine ⟨?_, ?_, ?_, ?_, trivial⟩ <;> decide
-example : BufConsts.stableRetire = true →
+example : Anchored { b := (setStableAnchor (openBuf .stream 2 [97, 98, 10, 99, 100, 10, 101, 102, 10]) 0).2 } [.get, .getLine, .getLine, .getToken [32]] := by
+  refine ⟨?_, ?_, ?_, ?_, trivial⟩ <;> decide
+example :
     (runS { b := (setStableAnchor (openBuf .stream 2 [97, 98, 10, 99, 100, 10, 101, 102, 10]) 0).2 } [.get, .getLine, .getLine, .getToken [32]]).b.memgen
       = (setStableAnchor (openBuf .stream 2 [97, 98, 10, 99, 100, 10, 101, 102, 10]) 0).2.memgen ∧
     (runS { b := (setStableAnchor (openBuf .stream 2 [97, 98, 10, 99, 100, 10, 101, 102, 10]) 0).2 } [.get, .getLine, .getLine, .getToken [32]]).b.balloc = 16 := by decide
 
-/-- WITHOUT the repair the full statement `∀ b nmin, b.anchor = some 0 → (refill b nmin).2.memgen = b.memgen` is false
-    (`stable_ptr_valid_fails_at`, `stable_ptr_valid_iff`).
-    PROVED PART (both trees): it holds as long as the next page still fits behind the loaded bytes. -/
+/-- regression theorems about the code BEFORE fix 188d0b6 (`refill0`; `refill = refill0` on every state without the flag,
+    `refill_without_flag`): there `∀ b nmin, b.anchor = some 0 → (refill0 b nmin).2.memgen = b.memgen` was false
+    (`stable_ptr_valid_fails_at`, `stable_ptr_valid_iff`); what did hold, and still holds with or without the flag: no move as
+    long as the next page fits behind the loaded bytes. -/
 theorem stable_ptr_valid_partial (b : Buf) (nmin : Nat) (ha : b.anchor = some 0) (hroom : b.n + b.pagesize ≤ b.balloc) :
     (refill b nmin).2.memgen = b.memgen :=
   refill_stable_room b nmin ha hroom
@@ -267,10 +271,16 @@ theorem open_quiet (mode : Mode) (ps : Nat) (src : Bytes)
     (h : mode = .string ∨ mode = .mmap ∨ mode = .allfile ∨ src.length < ps) : Quiet (openBuf mode ps src) :=
   EaselModel.Buffer.open_quiet mode ps src h
 
-/-- … and it fails without that hypothesis: stable anchor at offset 0 of the stream "abcd" read with page size 2;
-    the refill that `GetLine` issues reallocates the window (known finding `C05:stable-anchor:realloc-in-refill`). -/
+/-- … and the pre-fix variant failed without that hypothesis: stable anchor at offset 0 of the stream "abcd" read with page
+    size 2; the refill that `GetLine` issues reallocated the window (former known finding
+    `C05:stable-anchor:realloc-in-refill`); the repaired `refill` keeps the pointers on the same state. -/
 theorem stable_ptr_valid_fails_at :
-    stableWitness.anchor = some 0 ∧ (BufConsts.stableRetire = false → (refill stableWitness 1).2.memgen ≠ stableWitness.memgen) := by decide
+    stableWitness.anchor = some 0 ∧ (refill0 stableWitness 1).2.memgen ≠ stableWitness.memgen ∧
+      (refill stableWitness 1).2.memgen = stableWitness.memgen := by decide
+
+/-- the repaired `buffer_refill` differs from the old one only under `bf->stable` -/
+theorem refill_without_flag (b : Buf) (nmin : Nat) (hnp : b.stab = false) : refill b nmin = refill0 b nmin :=
+  refill_eq_refill0 b nmin hnp
 
 -- non-vacuity: the hypotheses of the theorems are met by the state every opener produces
 example : WF (openBuf .stream 3 [97, 13, 10, 98]) ∧ Loaded (openBuf .stream 3 [97, 13, 10, 98]) :=
@@ -439,15 +449,15 @@ example : (memRun (AState.init srcW) [.setOffset 40, .setAnchor 7, .setOffset 7,
 
 /-! ## Stable anchors, exactly (round 3) -/
 
-/-- **The strongest true statement about pointers under a stable anchor.** A `buffer_refill` under a stable anchor keeps
-    every pointer handed out valid if and only if it reads nothing (no stream, stream at EOF, enough loaded) or the next
-    page fits behind the loaded bytes, `n + pagesize ≤ balloc`. (`stable_ptr_valid_partial` is the `←` direction;
-    `stable_ptr_valid_fails_at` is an instance of `→`.) The property's clause "stay valid until it is raised" holds of
-    the code exactly on the histories all of whose refills satisfy the right-hand side. -/
-theorem stable_ptr_valid_iff (b : Buf) (nmin : Nat) (hnp : pinned b = false) (hp : b.pos ≤ b.n) (ha : b.anchor = some 0) :
-    (refill b nmin).2.memgen = b.memgen ↔
-      (b.hasfp = false ∨ b.eof = true ∨ nmin + b.pagesize ≤ b.n - b.pos ∨ b.n + b.pagesize ≤ b.balloc) :=
-  refill_stable_iff b nmin hnp hp ha
+/-- **Regression theorem about the code before fix 188d0b6, and about an anchor at the window start that is NOT stable today**
+    (`b.stab = false`: there `refill = refill0`, the old `buffer_refill`): such a refill keeps every pointer handed out valid
+    if and only if it reads nothing (no stream, stream at EOF, enough loaded) or the next page fits behind the loaded bytes,
+    `n + pagesize ≤ balloc`. Before the fix this was all that held under a STABLE anchor too (`stable_ptr_valid_fails_at`). -/
+theorem stable_ptr_valid_iff (b : Buf) (nmin : Nat) (hnp : b.stab = false) (hp : b.pos ≤ b.n) (ha : b.anchor = some 0) :
+    (refill0 b nmin).2.memgen = b.memgen ↔
+      (b.hasfp = false ∨ b.eof = true ∨ nmin + b.pagesize ≤ b.n - b.pos ∨ b.n + b.pagesize ≤ b.balloc) := by
+  rw [← refill_eq_refill0 b nmin hnp]
+  exact refill_stable_iff b nmin (by unfold pinned; rw [hnp]; exact Bool.and_false _) hp ha
 
 /-- **Plain anchors never promise pointer validity**: a refill that has to shift under a plain anchor `a > 0` keeps the
     bytes from the anchor on but moves them, so pointers handed out since the anchor was set dangle. -/
@@ -457,6 +467,8 @@ theorem plain_anchor_no_promise (b : Buf) (nmin a : Nat) (hst : b.stab = false) 
   plain_anchor_moves b nmin a (by unfold pinned; rw [hst]; exact Bool.and_false _) hf he ha ha0 hap hpn hneed hfull
 
 -- non-vacuity: both sides of the iff occur, and the hypotheses of `plain_anchor_no_promise` are met in a reachable state
+example : ({ stableWitness with stab := false } : Buf).stab = false ∧ ({ stableWitness with stab := false } : Buf).anchor = some 0 ∧
+    (refill0 { stableWitness with stab := false } 1).2.memgen ≠ stableWitness.memgen := by decide
 example : stableWitness.pos ≤ stableWitness.n ∧ stableWitness.anchor = some 0 ∧
     ¬ (stableWitness.hasfp = false ∨ stableWitness.eof = true ∨ 1 + stableWitness.pagesize ≤ stableWitness.n - stableWitness.pos ∨
        stableWitness.n + stableWitness.pagesize ≤ stableWitness.balloc) := by decide
